@@ -1,10 +1,12 @@
 """C02 — parallel evaluation equals serial evaluation under every schedule."""
 from . import core, eng, gen, engcheck
 
-THEOREMS = ["runPar_eq_leastModel", "par_eq_serial", "par_schedule_independent"]
+THEOREMS = ["runPar_eq_leastModel", "par_eq_serial", "par_schedule_independent", "nd_eq_leastModel", "nd_runs_agree", "par_is_nd"]
 TRUSTED = ["Lean 4.33.0 kernel", "axioms: propext, Classical.choice, Quot.sound only (audited per theorem)",
            "statement: Props/C02.lean (the parallel iteration as an arbitrary interleaving of atomic head updates over frozen total/delta; "
            "every schedule computes the least model, hence equals the serial result)",
+           "Props/C02ND.lean: the engine as a relation (Proofs/NDEngine.lean) - per pass ANY list of head rows set-equal to the rows of all variant instances, "
+           "any order and multiplicity - computes the least model (nd_eq_leastModel); every schedule of the parallel engine is such an execution (par_is_nd)",
            "tie: ascent_par! twins of generated programs (relations, lattices, aggregation, with and without #![inter_rule_parallelism]) run in pools "
            "of 1,2,3,4,8,16 threads under seeded perturbation of the concurrent index inserts (hook), with a hang watchdog, vs the serial model and oracle",
            "PARTIAL: atomicity of DashMap shard locks, boxcar push, RwLock/Mutex and rayon's completion (happens-before for the Relaxed `changed` flag) "
@@ -79,7 +81,7 @@ def canon(c, out):
 
 
 def check(tier, replay=None):
-    return engcheck.run_property("C02", tier, modules=["AscentVerif.Props.C02"], theorems=THEOREMS, trusted=TRUSTED, group="c02",
+    return engcheck.run_property("C02", tier, modules=["AscentVerif.Props.C02", "AscentVerif.Props.C02ND"], theorems=THEOREMS, trusted=TRUSTED, group="c02",
                                  build=build, oracle=oracle, known=known, what="ascent_par! programs under perturbed schedules",
                                  rule="ascent_par! twins of generated relational / lattice / aggregation programs, with and without #![inter_rule_parallelism], constructed and run "
                                       "in pools of 1..16 threads, under seeded perturbation (yield / spin / sleep at every concurrent index insert); every run must equal the "
